@@ -111,6 +111,25 @@ def oracle_nocolons(d):
     k2.parse(sec_colon_cautious=True)
     if tr(k2) != tr(b):
         fails.append(Failure("cautious_kw_differs", f"{text!r}: parse(sec_colon_cautious=True) gives {tr(k2)}, config gives {tr(b)}", text=text))
+    # a keyword that contradicts the configured colon mode decides
+    k3 = PLSSDesc(text, config="sec_colon_required", wait_to_parse=True)
+    k3.parse(sec_colon_required=False, sec_colon_cautious=True)
+    pulled3 = [f for f in k3.w_flags if isinstance(f, str) and f.startswith("pulled_sec_without_colon<")]
+    if tr(k3) != tr(a) or not pulled3:
+        fails.append(Failure("cautious_kw_over_required_config", f"{text!r}: config sec_colon_required + parse(sec_colon_required=False, sec_colon_cautious=True) gives {tr(k3)} with warnings {pulled3}, "
+                             f"expected the default tracts {tr(a)} plus a warning", text=text))
+    k4 = PLSSDesc(text, config="sec_colon_cautious", wait_to_parse=True)
+    k4.parse(sec_colon_cautious=False)
+    if tr(k4) != tr(a) or sorted(map(str, k4.flags)) != sorted(map(str, a.flags)):
+        fails.append(Failure("cautious_kw_false_over_config", f"{text!r}: config sec_colon_cautious + parse(sec_colon_cautious=False) gives {tr(k4)} {k4.flags}, default gives {tr(a)} {a.flags}", text=text))
+    k5 = PLSSDesc(text, config="sec_colon_cautious", wait_to_parse=True)
+    k5.parse(sec_colon_required=True)
+    if tr(k5) != tr(c):
+        fails.append(Failure("required_kw_over_cautious_config", f"{text!r}: config sec_colon_cautious + parse(sec_colon_required=True) gives {tr(k5)}, sec_colon_required alone gives {tr(c)}", text=text))
+    # the one fallback tract is what asking for copy_all gives: the colon mode does not lose the Twp/Rge/Sec a plain copy_all identifies
+    ca = PLSSDesc(text, layout="copy_all")
+    if len(c.tracts) == 1 and len(ca.tracts) == 1 and ca.tracts[0].sec_num is not None and c.tracts[0].trs != ca.tracts[0].trs:
+        fails.append(Failure("required_fallback_trs", f"{text!r}: the sec_colon_required fallback tract is {c.tracts[0].trs} {c.e_flags}, a requested copy_all gives {ca.tracts[0].trs}", text=text))
     return fails
 
 
@@ -175,6 +194,10 @@ def oracle_within(c):
             break
     if d.e_flags:
         fails.append(Failure("sec_within_error_flag", f"{text!r}: error flags {d.e_flags} under sec_within", **ctx))
+    for t in d.tracts:
+        if f"sec_within<{t.trs}>" not in t.w_flags:
+            fails.append(Failure("sec_within_warning_not_on_tract", f"{text!r}: tract {t.trs} does not carry its sec_within warning; tract w_flags={t.w_flags}, description w_flags={d.w_flags}", **ctx))
+            break
     k = PLSSDesc(text, wait_to_parse=True)
     k.parse(sec_within=True)
     if tr(k) != want:
